@@ -267,6 +267,44 @@ def _work(seeds):
     return [one_case(s) for s in seeds]
 
 
+def _long_documents():
+    """tables of R x C cells (plain and styled) and long runs of other constructs, followed by nested markup: the counts
+    of recognised constructs must be exactly what was written - with both tokenizers"""
+    import tokharness
+    st = tokharness.setup()
+    fails = []
+    tail = "{{done|{{yes|[[link]]}}}}<b>''x''</b>"
+    docs = []
+    for r, cc in ((5, 10), (10, 10), (12, 10), (25, 8)):
+        for style in ("", "style=x | "):
+            rows = "".join("|-\n" + " || ".join("| " * (j == 0) + style + "r%dc%d" % (i, j) for j in range(cc)) + "\n" for i in range(r))
+            docs.append(("table %dx%d%s" % (r, cc, " styled" if style else ""), "{|\n" + rows + "|}\n" + tail, {"td": r * cc, "tr": r, "table": 1}))
+    for name, unit, tag in (("120 list items", "* item {{t}}\n", "li"), ("150 rules", "----\n", "hr"), ("130 bold runs", "'''b''' ", "b"),
+                            ("110 dl terms", "; t : d\n", "dt")):
+        k = int(name.split()[0])
+        docs.append((name, unit * k + tail, {tag: k}))
+    for name, text, want in docs:
+        for which in ("py", "c"):
+            if st[which] is None:
+                continue
+            try:
+                code = st["builder"]().build(st[which]().tokenize(text))
+            except Exception as e:  # noqa: BLE001
+                fails.append(("%s: %s raises %r" % (which, name, e), {"text": text, "tokenizer": which}))
+                continue
+            tags = {}
+            for t in code.filter_tags():
+                tags[str(t.tag)] = tags.get(str(t.tag), 0) + 1
+            for tg, k in want.items():
+                extra = 1 if tg == "b" else 0          # the tail has one <b>
+                if tags.get(tg, 0) != k + extra:
+                    fails.append(("%s: %s: %d <%s> elements recognised, %d written" % (which, name, tags.get(tg, 0) - extra, tg, k), {"text": text, "tokenizer": which}))
+            if len(code.filter_templates()) != 2 + (120 if name == "120 list items" else 0) or len(code.filter_wikilinks()) != 1:
+                fails.append(("%s: %s: the nested markup after it is not recognised (%d templates, %d links)" % (
+                    which, name, len(code.filter_templates()), len(code.filter_wikilinks())), {"text": text, "tokenizer": which}))
+    return 2 * len(docs), fails
+
+
 def run(tier, seed):
     c = vlib.Check("C03", tier, seed, "proof")
     c.prove("C03.v")
@@ -289,12 +327,19 @@ def run(tier, seed):
             nontrivial.add(text)
         for f in fails:
             c.fail(f, {"seed": s, "text": text, "skip_style_tags": skip, "tokenizer": f.split(":")[0]})
+    # ---- long documents: many constructs one after another (each must give back what it took: depth, contexts)
+    ndocs, long_fails = _long_documents()
+    c.cov["evaluations"] += ndocs
+    c.notes["long_documents"] = ndocs
+    for f, data in long_fails:
+        c.fail(f, data)
     c.cov["distinct_nontrivial"] = len(nontrivial)
     c.cov["rule"] = ("trees generated as real node objects from a grammar (templates with positional/named parameters, arguments, wikilinks, "
                      "bracketed external links, headings, comments, entities, HTML tags with quoted/unquoted/valueless attributes, self-closing and "
                      "single tags, unparsed tags, bold/italic, list items, rules; leaf text without markup characters; no links inside links; "
                      "headings/lists/rules at line start; depth <= 4, width <= 4) rendered with str() and parsed by both tokenizers; tables by "
-                     "substituting generated inline code into 3 table skeletons; skip_style_tags 30% (style constructs excluded); "
+                     "substituting generated inline code into 3 table skeletons; 12 long documents (tables of 50-200 cells, 110-150 list items / rules / bold runs / "
+                     "terms followed by nested markup: element counts must be exact); skip_style_tags 30% (style constructs excluded); "
                      "non-trivial = >= 2 construct kinds and depth >= 2; distinct by rendered text")
     c.cov["samples"] = [r[0] for r in res[:3] if not (isinstance(r, tuple) and r[0] in ("CRASH", "TIMEOUT", "PYEXC"))]
     c.notes["construct_kind_counts"] = kinds_count
